@@ -58,6 +58,7 @@ var properties = map[string][]harnessSpec{
 		{Name: "midix.VerifC08File", Quick: map[string]int{"C08.maxOps": 2, "C08.maxTracks": 2, "C08.maxKeys": 1}, Thorough: map[string]int{"C08.maxOps": 2, "C08.maxTracks": 2, "C08.maxKeys": 2}, Marks: end},
 		{Name: "cmd.VerifC01FlagOverride", Marks: end},
 		{Name: "cmd.VerifC07BPMFlag", Quick: map[string]int{"C07.bpmDigits": 3}, Thorough: map[string]int{"C07.bpmDigits": 4}, Marks: []string{"end", "flag-absent", "flag-given"}},
+		{Name: "midix.VerifC02ControlStep", Marks: end},
 		{Name: "play.VerifC07Defaults", Marks: end},
 	},
 	"C03": {
@@ -86,6 +87,7 @@ var properties = map[string][]harnessSpec{
 		{Name: "note.VerifC15SemitoneUnbounded", Solver: "cvc5-int", Marks: end, MustTerminate: true},
 		{Name: "play.VerifC09WriteNoPanic", Quick: map[string]int{"C09.maxInstances": 2}, Thorough: map[string]int{"C09.maxInstances": 3}, Marks: []string{"end", "refused", "played"}},
 		{Name: "chord.VerifC16UserDict", Quick: map[string]int{"C16.maxUser": 2}, Thorough: map[string]int{"C16.maxUser": 3}, Marks: []string{"end", "rejected", "accepted"}, MustTerminate: true},
+		{Name: "cmd.VerifC07BPMFlag", Quick: map[string]int{"C07.bpmDigits": 3}, Thorough: map[string]int{"C07.bpmDigits": 4}, Marks: []string{"end", "flag-absent", "flag-given"}},
 		{Name: "cmd.VerifC09MainExit", Marks: end},
 		{Name: "cmd.VerifC09WriteConv", Marks: []string{"end", "converted", "refused"}},
 		{Name: "cmd.VerifC09CLINonsense", Marks: end},
@@ -94,6 +96,7 @@ var properties = map[string][]harnessSpec{
 	},
 	"C16": {
 		{Name: "chord.VerifC16LookupHistory", Quick: map[string]int{"C16.history": 2}, Thorough: map[string]int{"C16.history": 3}, Marks: end},
+		{Name: "cmd.VerifC16ChordFiles", Marks: end},
 		{Name: "chord.VerifC16Builtins", Marks: end},
 		{Name: "chord.VerifC16AttrNames", Marks: end},
 		{Name: "chord.VerifC16UserDict", Quick: map[string]int{"C16.maxUser": 2}, Thorough: map[string]int{"C16.maxUser": 3}, Marks: []string{"end", "rejected", "accepted"}, MustTerminate: true},
